@@ -58,12 +58,38 @@ class TrimeshPolyhedron(Domain):
                 "polygon, or a file to load a existing one."
             )
         self.mesh.fix_normals()
+        self._orient_cavities()
         super().__init__(space, dim=3)
         self.necessary_variables = set()
         self.tol = tol
         # Trimesh gives a warning when not enough points are sampled. We already
         # take care of this problem. So set the logging only to errors.
         logging.getLogger("trimesh").setLevel(logging.ERROR)
+
+    def _orient_cavities(self):
+        """``fix_normals`` orients every connected component of the mesh like a solid
+        of its own. A component that bounds a cavity (a closed surface nested inside
+        another one, where ``contains`` is False) has to be wound the other way round:
+        its normals have to point out of the material, i.e. into the cavity.
+        """
+        if self.mesh.body_count < 2:
+            return
+        components = trimesh.graph.connected_components(
+            self.mesh.face_adjacency, nodes=np.arange(len(self.mesh.faces))
+        )
+        faces = np.array(self.mesh.faces)
+        step = 1.0e-4 * self.mesh.scale
+        changed = False
+        for component in components:
+            face = component[0]
+            probe = (
+                self.mesh.triangles_center[face] + step * self.mesh.face_normals[face]
+            )
+            if self.mesh.contains([probe])[0]:
+                faces[component] = faces[component][:, ::-1]
+                changed = True
+        if changed:
+            self.mesh.faces = faces
 
     def export_file(self, name_of_file):
         """Exports the mesh to a file.
